@@ -63,7 +63,7 @@ def Cfg.repaired : Cfg := ⟨true, true, true, true, true⟩
 
 /-- `binary.PutUvarint(buf, x)`: the bytes written (`buf[:n]`). -/
 def putUvarint (x : UInt64) : Bytes :=
-  if _h : x ≥ 0x80 then (x.toUInt8 ||| 0x80) :: putUvarint (x >>> 7) else [x.toUInt8]
+  if h : x ≥ 0x80 then (x.toUInt8 ||| 0x80) :: putUvarint (x >>> 7) else [x.toUInt8]
 termination_by x.toNat
 decreasing_by
   have h1 : (128 : Nat) ≤ x.toNat := by simpa [UInt64.le_iff_toNat_le] using h
@@ -161,7 +161,7 @@ def pairUp {H : Type} (f : HashFns H) : List H → List H
   | _ => []
 
 theorem pairUp_length {H : Type} (f : HashFns H) : ∀ l : List H, (pairUp f l).length = l.length / 2
-  | [] => rfl
+  | [] => by simp [pairUp]
   | [_] => by simp [pairUp]
   | a :: b :: rest => by
     simp only [pairUp, List.length_cons, pairUp_length f rest]; omega
